@@ -23,6 +23,8 @@ type Opt struct {
 	StrAtoms bool
 	// AlwaysDec gives every int its exact decimal ("dec") even when it fits a TLC integer.
 	AlwaysDec bool
+	// FloatExact adds the exact decimal value of a float64 ("exact"; {"inf": +-1} for infinities).
+	FloatExact bool
 	// FloatMid adds the exact decimal expansions of the two midpoints around a float64 (C02/C04).
 	FloatMid bool
 }
@@ -201,6 +203,13 @@ func FloatMidpoints(f float64) (lo, hi any) {
 
 func (o Opt) floatVal(f float64) any {
 	m := map[string]any{"t": "flt", "s": strconv.FormatFloat(f, 'g', -1, 64)}
+	if o.FloatExact {
+		if math.IsInf(f, 0) || math.IsNaN(f) {
+			m["exact"] = map[string]any{"inf": strconv.FormatFloat(f, 'g', -1, 64)}
+		} else {
+			m["exact"] = RatDec(new(big.Rat).SetFloat64(f))
+		}
+	}
 	if o.FloatMid {
 		// fields present in every float record so that TLC can select them
 		zero := Dec("0")
